@@ -342,7 +342,7 @@ pub trait Int:
     common_methods!(decl);
 }
 
-pub trait UInt: Int {
+pub trait UInt: Int + Add<<Self as Int>::D, Output = Self> + Div<<Self as Int>::D, Output = Self> + Rem<<Self as Int>::D, Output = <Self as Int>::D> {
     fn from_digits_arr(p: &[u8]) -> Self;
     fn digits_bytes(&self) -> Vec<u8>;
     fn from_digit_u64(d: u64) -> Self;
@@ -496,6 +496,6 @@ pub fn width_scale(bits: u32) -> f64 {
         0..=320 => 1.0,
         321..=512 => 0.6,
         513..=1088 => 0.3,
-        _ => 0.06,
+        _ => 0.15,
     }
 }
